@@ -50,6 +50,12 @@ SUPPORTED = [
     ("textDocument/formatting", {"textDocument": {"uri": URI}, "options": {"tabSize": 0, "insertSpaces": True}}),
     ("textDocument/formatting", {"textDocument": {"uri": URI}, "options": {"tabSize": 8, "insertSpaces": False, "trimTrailingWhitespace": True}}),
     ("textDocument/hover", {"textDocument": {"uri": URI}, "position": {"line": 99, "character": 99}}),
+    ("textDocument/formatting", {"textDocument": {"uri": URI}, "options": {"tabSize": 255, "insertSpaces": True}}),
+    ("textDocument/formatting", {"textDocument": {"uri": URI}, "options": {"tabSize": 256, "insertSpaces": True}}),
+    ("textDocument/formatting", {"textDocument": {"uri": URI}, "options": {"tabSize": 1000, "insertSpaces": True, "insertFinalNewline": None}}),
+    ("textDocument/formatting", {"textDocument": {"uri": URI}, "options": {"tabSize": 4294967295, "insertSpaces": False}}),
+    ("textDocument/hover", {"textDocument": {"uri": URI}, "position": {"line": 4294967295, "character": 4294967295}}),
+    ("textDocument/completion", {"textDocument": {"uri": URI}, "position": {"line": 1, "character": 0}, "context": None}),
     ("textDocument/completion", {"textDocument": {"uri": "file:///verif/never-opened.spl"}, "position": {"line": 0, "character": 0}}),
 ] + [
     # every request kind on a document the server does not know (never opened, or closed): answered, not fatal
@@ -82,6 +88,12 @@ def letter_message(letter, next_id, rng):
         return lc.notification("initialized", {}), "N:initialized"
     if letter == "Q":
         m, p = SUPPORTED[rng.randrange(len(SUPPORTED))]
+        return lc.request(next_id, m, p), f"R{next_id}:{m}"
+    if letter == "q":
+        # requests whose cost does not grow with the square of the document (used behind the large document)
+        cheap = [(m, p) for m, p in SUPPORTED if m in ("textDocument/hover", "textDocument/completion", "textDocument/prepareRename",
+                                                      "textDocument/definition", "textDocument/declaration", "textDocument/signatureHelp")]
+        m, p = cheap[rng.randrange(len(cheap))]
         return lc.request(next_id, m, p), f"R{next_id}:{m}"
     if letter == "U":
         m = UNKNOWN_REQ[rng.randrange(len(UNKNOWN_REQ))]
@@ -147,7 +159,7 @@ def c18_cases(run):
     # and many requests in the main phase
     seqs.append("IJD" + "Q" * 150 + "SX")
     # requests pipelined behind a document whose analysis takes seconds, then more traffic and a clean shutdown
-    seqs += ["IJBQQQSX", "IJBQDQUQSX"]
+    seqs += ["IJBqqqSX", "IJBqDqUqSX"]
     # requests on a closed document (and on documents never opened: part of the request pool)
     seqs += ["IJDQC" + "Q" * 25 + "SX", "IJDCDQC" + "Q" * 25 + "SX", "IJC" + "Q" * 25 + "SX"]
     sessions = [build_session(s, rng) for s in seqs]
